@@ -45,7 +45,7 @@ KERNELS_OF = {
     "C02": ["into_range"],
     "C10": ["reserve", "reserve_exact", "shrink_to_fit", "shrink_to", "heap_expand", "expand_exact_default"],
     "C11": ["stack_build", "stackn_build", "stackn_size", "reserve_one", "expand_one"],
-    "C14": ["iter_len"],
+    "C14": ["iter_len", "iter_next", "iter_next_back", "iter_clone"],
     "C06": ["pop_new", "remove_new", "swap_remove_new", "drain_new", "splice_new"],
     "C07": ["pop_new", "remove_new", "swap_remove_new", "drain_new", "splice_new"],
 }
